@@ -12,7 +12,7 @@ use std::{i128, mem};
 
 use crate::core::consensus::blockchain::Blockchain;
 use crate::core::consensus::burnfee::BurnFee;
-use crate::core::consensus::golden_ticket::GoldenTicket;
+use crate::core::consensus::golden_ticket::{GoldenTicket, GOLDEN_TICKET_SIZE};
 use crate::core::consensus::hop::HOP_SIZE;
 use crate::core::consensus::merkle::MerkleTree;
 use crate::core::consensus::slip::{Slip, SlipType, SLIP_SIZE};
@@ -1313,6 +1313,14 @@ impl Block {
                     fee_transaction_index = i as u64;
                 }
                 TransactionType::GoldenTicket => {
+                    if transaction.data.len() != GOLDEN_TICKET_SIZE {
+                        warn!(
+                            "golden ticket in block {} has a payload of {} bytes",
+                            self.id,
+                            transaction.data.len()
+                        );
+                        return Err(Error::new(ErrorKind::InvalidData, "malformed golden ticket"));
+                    }
                     has_golden_ticket = true;
                     golden_ticket_index = i as u64;
                 }
@@ -1320,6 +1328,8 @@ impl Block {
                     let mut vbytes: Vec<u8> = vec![];
                     vbytes.extend(&self.rebroadcast_hash);
                     vbytes.extend(&transaction.serialize_for_signature());
+                    // the carried (original) signature is part of what is rebroadcast
+                    vbytes.extend(&transaction.signature);
                     self.rebroadcast_hash = hash(&vbytes);
 
                     for slip in transaction.to.iter() {
@@ -1730,6 +1740,7 @@ impl Block {
                                             vbytes.extend(&cv.rebroadcast_hash);
                                             vbytes
                                                 .extend(&rebroadcast_tx.serialize_for_signature());
+                                            vbytes.extend(&rebroadcast_tx.signature);
                                             cv.rebroadcast_hash = hash(&vbytes);
 
                                             cv.rebroadcasts.push(rebroadcast_tx);
@@ -1802,6 +1813,7 @@ impl Block {
                                             vbytes.extend(&cv.rebroadcast_hash);
                                             vbytes
                                                 .extend(&rebroadcast_tx.serialize_for_signature());
+                                            vbytes.extend(&rebroadcast_tx.signature);
                                             cv.rebroadcast_hash = hash(&vbytes);
                                             cv.rebroadcasts.push(rebroadcast_tx);
                                         } else {
@@ -3144,6 +3156,16 @@ impl Block {
                 let fee_transaction_in_block = self.transactions.get(ft_index).unwrap();
                 let hash1 = hash(&fee_transaction_expected.serialize_for_signature());
                 let hash2 = hash(&fee_transaction_in_block.serialize_for_signature());
+
+                // the fee transaction is signed by the block creator
+                if !verify_signature(
+                    &hash2,
+                    &fee_transaction_in_block.signature,
+                    &self.creator,
+                ) {
+                    error!("ERROR 892033: fee transaction is not signed by the block creator");
+                    return false;
+                }
 
                 if validate_against_utxo && hash1 != hash2 {
                     error!(
